@@ -11,8 +11,7 @@ def expected : List (String × String) := [
       ("models.py:EarlyStopping", "feb13891a9f3dbfa"),
       ("models.py:BaseOptimizationConfig", "bcc021fc8be4b711"),
       ("models.py:Agent", "4946ab827122aa01"),
-      ("helpers.py:average_fitness", "36e2d2c1c4591bca"),
-      ("helpers.py:get_pool_executor", "a08feac481aab369")]
+      ("helpers.py:average_fitness", "36e2d2c1c4591bca")]
 
 theorem source_pins_unchanged : expected.all (fun e => pins.contains e) = true := by decide
 
